@@ -707,7 +707,7 @@ func runC10(c *core.Ctx) {
 		case 3:
 			src = wl.SoupFrom(r, c03Tokens, 1+r.Intn(12))
 		default:
-			src = wl.Mix(r, corpus)
+			src = mixDoc(r, corpus)
 		}
 		e := r.Intn(cfg.NExt)
 		if r.Intn(3) == 0 {
